@@ -82,3 +82,14 @@ func init() {
 		fmt.Printf("errdisc: %d call sites, %d failing\n", n, bad)
 	}
 }
+
+func init() {
+	debugHooks["names"] = func(c *Ctx) {
+		fn := c.Func("(*internal/policy.State).preprocess")
+		for _, k := range eng.Calls(fn, false) {
+			if k.Callee != nil && (k.Callee.Name() == "Has" || k.Callee.Name() == "Add") {
+				fmt.Printf("%s name=%s recv=%v (%T) isField=%v\n", c.Rel(k.Pos()), k.Name(), k.Recv(), k.Recv(), eng.PField("ruleNames", nil)(k.Recv()))
+			}
+		}
+	}
+}
